@@ -280,7 +280,10 @@ func (g *QGen) path(depth int, anchor string) []Sel {
 	for i := 0; i < n; i++ {
 		s := g.selector(depth)
 		sels = append(sels, s)
-		if s.Kind == "descent" { // a selector must follow ..
+		if s.Kind == "descent" && i == n-1 && g.r.Chance(30) {
+			break // trailing `..`
+		}
+		if s.Kind == "descent" { // a selector usually follows ..
 			nx := g.selector(depth)
 			for nx.Kind == "descent" || nx.Kind == "filter" || nx.Kind == "script" {
 				nx = g.selector(depth)
@@ -309,6 +312,12 @@ func (g *QGen) operandPath(depth int) *Expr {
 		default:
 			sels = append(sels, Sel{Kind: "descent"}, g.nameSelExpr())
 		}
+	}
+	if g.r.Chance(12) {
+		// a trailing `..`: the incoming nodes and all their container descendants — several matches that include the
+		// node the path started from (possibly the document root, which has no parent)
+		sels = append(sels, Sel{Kind: "descent"})
+		g.Stats["expr.trailing-descent"]++
 	}
 	return &Expr{Kind: "path", Path: sels}
 }
